@@ -78,13 +78,24 @@ def main():
     ap.add_argument('--no-tests', action='store_true')
     ap.add_argument('--tier', default='quick')
     ap.add_argument('--seed', default='1')
+    ap.add_argument('--resume', action='store_true', help='skip (mutant, property) pairs already in the log')
     a = ap.parse_args()
     sel = [m for m in MUTANTS if (not a.prop or a.prop in m['props']) and (not a.name or a.name in m['id'])]
     os.makedirs(os.path.join(HERE, 'out'), exist_ok=True)
+    log_path = os.environ.get('VERIF_MUTANT_LOG') or os.path.join(HERE, 'out', 'mutants.jsonl')
+    done = set()
+    if a.resume and os.path.exists(log_path):
+        done = {(json.loads(ln)['mutant'], json.loads(ln)['property']) for ln in open(log_path)}
     for m in sel:
+        if a.resume and all((m['id'], p_) in done for p_ in m['props'] if not a.prop or p_ == a.prop):
+            continue
         d = make_scratch()
         try:
-            apply(d, m)
+            try:
+                apply(d, m)
+            except (SystemExit, AssertionError, ValueError) as e:   # pattern not found: the source moved on; say so, go on with the others
+                print(f"{m['id']:45s} NOT-APPLICABLE {e}")
+                continue
             tests_ok, tail = (None, 'skipped') if a.no_tests else run_tests(d)
             for prop in m['props']:
                 if a.prop and prop != a.prop:
